@@ -21,10 +21,15 @@ program, compiled by exactly one worker; base models are pre-built serially in s
                         affine3 | scale3 (one new parameter, one intermediate)
   same-name ::= the new parameter is NAMED like the base parameter it replaces (same-affine | same-power; size 2:
               same2-first | same2-second | same2-both)
+  signed    ::= affine-signed: the new volume-typed parameter has limits [-inf, inf] and takes negative (default), zero
+              and positive values, with dispersity on it (relative width about a negative centre)
   validity  ::= for every base with a `valid` clause (cylinder, barbell, capped_cylinder, mass_surface_fractal, @gen
               a <= bb, @gen2 1.5*aa <= 2.0*bb) and EVERY parameter of the clause: translations whose top-level
               operator is ?: | + | - | * (vop-cond | vop-sum | vop-diff | vop-prod), with mono inputs on both
-              sides of the boundary, two meshes straddling it and one mesh entirely outside
+              sides of the boundary, two meshes straddling it and one mesh entirely outside; plus
+              meshes of 99 / 101 / 151 / 301 points on the new parameter (and 101 x 2 with a retained parameter,
+              and 101 points in 2-D) with the boundary in the first 100-point chunk, exactly at the chunk edge
+              and in a later chunk
   new type  ::= "volume" | ""   type of the new parameters that replace volume parameters.  "" is built for every
               template when the replaced set is ALL volume parameters of the base (the derived table then has no
               volume-typed parameter left, but volumes, R_eff and the volume normalisation must still be the base
@@ -76,7 +81,8 @@ RULE = ("one case = one derived model with all its inputs (<=2 input dimensions 
 ASSUMPTIONS = [
     "the base model's own single-point values and volumes (monodisperse call of the base library) are the reference; "
     "the validity verdict is the base definition's `valid` clause evaluated in Python, not the kernel's weight",
-    "weights.get_weights supplies (values, weights) per parameter (decided separately by C02)",
+    "the reference mesh of every dispersed parameter is built by the check itself (documented gaussian / uniform grid "
+    "and density, relative width, cut by the limits), not by weights.get_weights",
     "the Python rendering of each translation template is the meaning of its C text",
     "DLL driver only; non-magnetic calls only; no orientation jitter",
     "parameter values are drawn from the finite alphabet in coverage.bounds",
@@ -234,6 +240,15 @@ def _template(tname, rep, info):
             return dict(rows=[_row(x, 0.4 * d0, new_t[0], lo[0])],
                         text="%s = 2.0*%s + %r" % (p, x, b),
                         fn=lambda v: {p: 2.0 * v[x] + b})
+        if tname == "affine-signed":
+            # a volume-typed (dispersible, relative width) new parameter that takes NEGATIVE, zero and positive values
+            if t[0] != "volume":
+                return None
+            x = fresh("shift")
+            return dict(rows=[[x, "", -0.25 * d0, [-INF, INF], "volume", "signed new parameter"]],
+                        text="%s = 2.0*%s + %r" % (p, x, 1.6 * d0),
+                        fn=lambda v: {p: 2.0 * v[x] + 1.6 * d0},
+                        x_alts={x: [0.0, 0.2 * d0]}, signed=x)
         if tname == "affine-neg":
             if t[0] != "volume":
                 return None
@@ -348,7 +363,7 @@ def _template(tname, rep, info):
     return None
 
 
-T1 = ["affine", "affine-neg", "power", "ratio", "cond", "interm1", "interm2", "prefix", "offset",
+T1 = ["affine", "affine-signed", "affine-neg", "power", "ratio", "cond", "interm1", "interm2", "prefix", "offset",
       "same-affine", "same-power"]
 T2 = ["affine2", "volecc", "chain2", "prefix2", "shared", "same2-first", "same2-second", "same2-both"]
 T3 = ["affine3", "scale3"]
@@ -382,7 +397,12 @@ def _vop_template(tname, rep, info, P):
     Xb = 30.0 if side == ">=" else 50.0
     u = float(P[p].default) / 40.0
     rows = [["w", "", VOP_X, [0.0, INF], "volume", "new parameter"]]
-    extra = dict(x_alts={"w": [20.0 if side == ">=" else 62.0]}, pd_alts=VOP_PD, vop=True)
+    # meshes on both sides of the DLL driver's 100-point chunk; the validity boundary falls in the first chunk
+    # (large values valid) or in a later chunk (small values valid) for the +-45% meshes, and exactly at the chunk
+    # edge (between mesh points 99 and 100) for the last one
+    big = [["uniform", 99, 0.45], ["uniform", 101, 0.45], ["uniform", 151, 0.45], ["gaussian", 151, 0.15],
+           (["uniform", 301, 0.745] if side == ">=" else ["uniform", 151, 0.765])]
+    extra = dict(x_alts={"w": [20.0 if side == ">=" else 62.0]}, pd_alts=VOP_PD, vop=True, big=big)
     if tname == "vop-sum":
         c = B - u * Xb
         return dict(rows=rows, text="%s = %r*w + %r" % (p, u, c), fn=lambda v: {p: u * v["w"] + c}, **extra)
@@ -545,6 +565,30 @@ def run_case(case, ctx):
     raise HarnessError("unknown case kind %r" % case["kind"])
 
 
+def own_dist(par, dtype, npts, width, nsigmas, center):
+    """
+    The dispersity mesh of a size (relative-width) parameter built by the check itself from the documented grid and
+    density - gaussian: npts points centre +- nsigmas*sigma, weight exp(-(x-c)^2/(2 sigma^2)); uniform: npts points
+    centre +- sigma, equal weights; sigma = width*centre - cut by the parameter limits and normalised.  Both
+    densities are symmetric about the centre, so a negative centre (sigma < 0) gives the same set of points.
+    """
+    lo, hi = par.limits
+    sigma = abs(width * center)
+    if npts < 2 or sigma == 0.0:
+        x = np.array([center], float)
+        x = x[(x >= lo) & (x <= hi)]
+        return x, np.ones_like(x)
+    if dtype == "gaussian":
+        x = center + np.linspace(-nsigmas * sigma, nsigmas * sigma, npts)
+    elif dtype == "uniform":
+        x = np.linspace(center - sigma, center + sigma, npts)
+    else:
+        raise HarnessError("own_dist: unsupported distribution %r" % dtype)
+    x = x[(x >= lo) & (x <= hi)]
+    w = np.exp(-0.5 * ((x - center) / sigma) ** 2) if dtype == "gaussian" else np.ones_like(x)
+    return x, (w / w.sum() if len(w) else w)
+
+
 def _base_point(kernel, binfo, bp, mode):
     """
     Single-point evaluation of the base model at base parameters bp, or None if the point is outside the base
@@ -690,7 +734,17 @@ def _run_prog(case, ctx):
     have_modes = bool(binfo.radius_effective_modes)
     if have_modes:
         dims.append(("mode", 1, [min(2, len(binfo.radius_effective_modes)), 0]))
-    for ndev, cfg in deviations(dims, 2):
+    configs = list(deviations(dims, 2))
+    if tpl.get("big"):
+        # explicit extra inputs (beyond the deviation bound): each big mesh alone in 1-D, the 101-point mesh in 2-D,
+        # and 101 points x 2 points of a retained parameter
+        default = {d[0]: d[1] for d in dims}
+        for alt in tpl["big"]:
+            configs.append((1, dict(default, **{"pd:w": alt, "bigmesh": True})))
+        configs.append((2, dict(default, **{"pd:w": tpl["big"][1], "q": "2d", "bigmesh": True})))
+        for nm in retained_vol[:1]:
+            configs.append((2, dict(default, **{"pd:w": tpl["big"][1], "pd:" + nm: ["uniform", 2, 0.1], "bigmesh": True})))
+    for ndev, cfg in configs:
         dim = cfg["q"]
         mode = cfg.get("mode", 0)
         # nominal values of the derived table
@@ -710,7 +764,7 @@ def _run_prog(case, ctx):
                 nm = key[3:]
                 t, n, w = alt
                 pars[nm + "_pd"], pars[nm + "_pd_n"], pars[nm + "_pd_type"] = w, n, t
-                disp[nm] = refmodel.par_dist(cpars[nm], t, n, w, 3.0, vals[nm])
+                disp[nm] = own_dist(cpars[nm], t, n, w, 3.0, vals[nm])
         cutoff = cfg["cutoff"]
         nq = len(Q1)
         moved = [False]
@@ -724,9 +778,29 @@ def _run_prog(case, ctx):
                 return None
             if any(abs(bp[k] - bdefaults[k]) > 1e-9 * max(1.0, abs(bdefaults[k])) for k in rep):
                 moved[0] = True
-            return _base_point(kern["b", _dim], binfo, bp, _mode)
+            out = _base_point(kern["b", _dim], binfo, bp, _mode)
+            seq.append(out is not None)
+            return out
+        seq = []
         ref = G.mean_from_points(point_fn, nq, dict(vals, scale=SCALE, background=BACKGROUND), disp, cutoff)
         br = ["dim:" + dim]
+        if cfg.get("bigmesh"):
+            br.append("vop-bigmesh")
+            if len(seq) > 100:
+                br.append("vop-bigmesh:more-than-100-points")
+            if len(disp) == 1:
+                # where along the mesh (in kernel order) does the validity verdict change?
+                for i in range(1, len(seq)):
+                    if seq[i] != seq[i - 1]:
+                        br.append("vop-bigmesh:boundary-" + ("at-chunk-edge" if i % 100 == 0 else
+                                                              "in-first-chunk" if i < 100 else "in-later-chunk"))
+            elif len(disp) == 2 and ref["ninvalid"] and ref["nqual"]:
+                br.append("vop-bigmesh:two-parameters-straddling")
+        sg = tpl.get("signed")
+        if sg and sg in disp:
+            br.append("signed-dispersed:" + ("negative" if vals[sg] < 0 else "zero" if vals[sg] == 0 else "positive"))
+            if vals[sg] < 0 and len(disp[sg][0]) >= 2:
+                br.append("signed-dispersed:negative-centre-mesh")
         if vop:
             kind = (("straddled" if ref["nqual"] and ref["ninvalid"] else "mesh-all-invalid" if not ref["nqual"] else None)
                     if disp else ("valid-mono" if ref["nqual"] else "invalid-mono"))
@@ -905,7 +979,7 @@ def _seq_one(arg):
             disp = {}
             if pd:
                 pars["x_pd"], pars["x_pd_n"], pars["x_pd_type"] = 0.2, 3, "gaussian"
-                disp["x"] = refmodel.par_dist(cpars["x"], "gaussian", 3, 0.2, 3.0, vals["x"])
+                disp["x"] = own_dist(cpars["x"], "gaussian", 3, 0.2, 3.0, vals["x"])
 
             def point_fn(pt, _kb=kb):
                 bp = {k: v for k, v in pt.items() if k in bdefaults}
@@ -985,6 +1059,14 @@ def finish(ctx, report):
     report.require("program:no-volume-typed-parameter-left", len(QUICK_BASES if ctx.quick else ALL_BASES),
                    "programs replacing ALL volume parameters by plain-typed new parameters")
     report.require("no-volume-typed-parameter-left", 200, "evaluations of a derived table without volume-typed parameter")
+    report.require("vop-bigmesh", 200, "validity family: meshes around the 100-point chunk")
+    report.require("vop-bigmesh:more-than-100-points", 150, "validity family: mesh of more than 100 points")
+    for k in ("in-first-chunk", "at-chunk-edge", "in-later-chunk"):
+        report.require("vop-bigmesh:boundary-" + k, 15, "validity boundary " + k)
+    report.require("vop-bigmesh:two-parameters-straddling", 10, "101 x 2 mesh straddling the validity boundary")
+    report.require("signed-dispersed:negative-centre-mesh", 50, "dispersity about a NEGATIVE value of a new volume parameter")
+    report.require("signed-dispersed:zero", 10, "dispersity requested at value zero")
+    report.require("signed-dispersed:positive", 10, "dispersity about a positive value of the signed parameter")
     for t in TV:
         report.require("template:" + t, 2 * len(VOP), "validity-family programs with template " + t)
     report.require("program:vop", 8 * len(VOP), "validity-family programs evaluated")
